@@ -1,5 +1,7 @@
 from typing import Type
 
+import pandas as pd
+
 from reamber.base.lists.TimedList import TimedList
 
 
@@ -19,7 +21,9 @@ class ConvertBase:
 
         buffer = target.empty(len(src))
         for to_, from_ in mapping.items():
-            buffer.__setattr__(
-                to_, src.__getattribute__(from_) if isinstance(from_, str) else from_
-            )
+            val = src.__getattribute__(from_) if isinstance(from_, str) else from_
+            # Copy by position: the source may carry any row labels
+            if isinstance(val, pd.Series):
+                val = val.to_numpy()
+            buffer.__setattr__(to_, val)
         return buffer
